@@ -39,7 +39,10 @@ MANIFEST = dict(
          "the named field differs (slot setters: pre ++ entry ++ post with the same pre/post; scalar fields: "
          "AgreeOutside a b); tied by planting foreign blobs (0..12 entries, labelled/coloured empty slots, odd flags, "
          "trailing bytes) into the five BLOB columns of real 2.x tracks through the raw connection, calling every "
-         "setter through the public API and reading the columns back raw (independent inflate + Spec decode).",
+         "setter through the public API and reading the columns back raw (independent inflate + Spec decode). The frame "
+         "theorems are also stated about STORED BYTES (decode the five stored payloads, apply the setter, encode: the "
+         "stored payloads agree outside the named field; quick cues up to normBool), every column a setter does not name "
+         "is proved untouched for all 26 setters, and the fifteen column-only setters change none of the five.",
     note="set_loops / set_waveform used to rebuild their column and drop foreign extra_data (former known finding, repaired "
          "by fix: bee2c23; now frame theorems C04_setter_frame_loops / _waveform). Compressed bytes are never compared.",
     technique="Lean 4 theorems (generic Exact law of codec combinators) + byte-exact differential run on foreign blobs",
